@@ -218,7 +218,12 @@ func runC11(c *Ctx) {
 					return ok && isBody(ta.X)
 				}
 				isRBuf := vFieldLoad(clientReqT, "buf", nil)
-				if !((isBuf(bo.X) && isRBuf(bo.Y)) || (isBuf(bo.Y) && isRBuf(bo.X))) {
+				// body == io.Reader(r.buf): interface equality holds only for the same dynamic type and pointer
+				isRBufI := func(v ssa.Value) bool {
+					mi, ok := v.(*ssa.MakeInterface)
+					return ok && isRBuf(mi.X)
+				}
+				if !((isBuf(bo.X) && isRBuf(bo.Y)) || (isBuf(bo.Y) && isRBuf(bo.X)) || (isBody(bo.X) && isRBufI(bo.Y)) || (isBody(bo.Y) && isRBufI(bo.X))) {
 					return false
 				}
 				return (bo.Op.String() == "==") == b
